@@ -603,6 +603,65 @@ func globalLoadName(v ssa.Value) string {
 
 // checkC12ReqCtx: http.Server.BaseContext.
 func checkC12ReqCtx(p *Prog, r *Report, ru *Rule) {
+	/* After the listener has closed the shell is left to Shutdown, which
+	waits for it however long it lasts: no deadline on Shutdown's context,
+	and no Server.Close (which drops live connections). */
+	for _, fn := range p.Funcs() {
+		if nil == fn.Pkg || !strings.HasSuffix(fn.Pkg.Pkg.Path(), hsrvPkg) {
+			continue
+		}
+		eachInstr(fn, func(i ssa.Instruction) {
+			c := callCommon(i)
+			if nil == c {
+				return
+			}
+			switch calleeName(c) {
+			case "(*net/http.Server).Close":
+				ru.Bad(fnName(fn)+":Server.Close", posOf(i), "http.Server.Close is called: it closes the connections of requests still being served — the attached shell's — instead of waiting for them")
+			case "(*net/http.Server).Shutdown":
+				v := c.Args[1]
+				for depth := 0; depth < 8 && nil != v; depth++ {
+					v = stripConv(resolveCell(v), false)
+					if ex, isEx := v.(*ssa.Extract); isEx {
+						v = ex.Tuple
+					}
+					cl, isCall := v.(*ssa.Call)
+					if !isCall {
+						break
+					}
+					switch nm := calleeName(cl.Common()); nm {
+					case "context.WithTimeout", "context.WithDeadline", "context.WithTimeoutCause", "context.WithDeadlineCause":
+						ru.Bad(fnName(fn)+":Shutdown-deadline", posOf(i), "Shutdown is given a context from %s: with -one-shell it starts when the listener closes, so the attached shell is cut off when that clock runs out", nm)
+						v = nil
+					case "context.WithCancel", "context.WithCancelCause", "context.WithValue", "context.WithoutCancel":
+						v = cl.Common().Args[0]
+					default:
+						v = nil
+					}
+				}
+			case "(*net/http.Server).Serve":
+				/* Serve gives up on the first Accept error which is not
+				temporary: the listener's Accept is the socket's own (or
+				passes it through), so that one bad client cannot end
+				serving while no shell is attached. */
+				lv := c.Args[1]
+				x := stripConv(resolveCell(lv), false)
+				ms := p.SSA.MethodSets.MethodSet(x.Type())
+				for k := 0; k < ms.Len(); k++ {
+					if "Accept" != ms.At(k).Obj().Name() {
+						continue
+					}
+					af := p.SSA.MethodValue(ms.At(k))
+					if nil == af || "" != af.Synthetic || !inModule(af) || nil == af.Blocks {
+						continue
+					}
+					if in := unwrapPassThrough(p, lv, "Accept"); in == lv {
+						ru.Bad(fnName(fn)+":Serve:accept", posOf(i), "the listener Serve runs on has an Accept of the module's own (%s) which does more than pass the socket's result on: an error it returns for one client (a failed handshake) ends Serve, and the listener closes although no shell is attached", fnName(af))
+					}
+				}
+			}
+		})
+	}
 	n := 0
 	for _, fn := range p.Funcs() {
 		if nil == fn.Pkg || !strings.HasSuffix(fn.Pkg.Pkg.Path(), hsrvPkg) {
